@@ -21,26 +21,29 @@ theorem create_is_exclusive :
 theorem lock_path_site : lockPathExpr = "filepath.Join(p.baseDir, \"LOCK\")" ∧
     acquireLockIfs = ["if err != nil", "if os.IsExist(err)", "if err != nil"] := by decide
 
-/-- `oWritePid` failure → `oCleanup`: after the create succeeded, acquireLock's only
+/-- (The extractor prints every string literal of an error return as "…": what a message says is
+    not a fact the model depends on — rewording it preserves behaviour —, the order, shape and
+    clean-up of the returns is.)
+    `oWritePid` failure → `oCleanup`: after the create succeeded, acquireLock's only
     error return is preceded by lockFile.Close() and os.Remove(lockPath); the two returns
     of the create's own failure have nothing to clean up. -/
 theorem acquireLock_error_paths : acquireLockErrorReturns =
-    [("return fmt.Errorf(\"storage directory is locked by another process\")", false),
-     ("return fmt.Errorf(\"failed to create lock file: %w\", err)", false),
-     ("return fmt.Errorf(\"failed to write lock file: %w\", err)", true)] := by decide
+    [("return fmt.Errorf(\"…\")", false),
+     ("return fmt.Errorf(\"…\", err)", false),
+     ("return fmt.Errorf(\"…\", err)", true)] := by decide
 
 /-- `oReadDir1` failure → `oCleanup`: every error return of newStorageProvider after a
     successful acquireLock is preceded by provider.releaseLock(), and there is exactly
     the one the model has. -/
 theorem newStorageProvider_error_paths : newProviderErrorReturns =
-    [("return nil, fmt.Errorf(\"failed to initialize segment counter: %w\", err)", true)] := by decide
+    [("return nil, fmt.Errorf(\"…\", err)", true)] := by decide
 
 /-- `oReadDir2` failure → `oCleanup`: every error return of OpenPersistentHybridIndex after
     a successful newStorageProvider is preceded by provider.close(); the first entry is
     newStorageProvider's own failure (no provider exists). -/
 theorem open_error_paths : openErrorReturns =
-    [("return nil, fmt.Errorf(\"failed to create storage provider: %w\", err)", false),
-     ("return nil, fmt.Errorf(\"failed to list segments: %w\", err)", true)] := by decide
+    [("return nil, fmt.Errorf(\"…\", err)", false),
+     ("return nil, fmt.Errorf(\"…\", err)", true)] := by decide
 
 /-- every error return after the lock was taken is cleaned (the statement the brief asks for) -/
 theorem every_error_return_after_lock_releases :
